@@ -423,13 +423,21 @@ EXTRA10 = {
     'C19': ' Round 14: a searched position is a substr length only for a piece that starts at 0 (C19.R15).',
     'C20': ' Round 14: draining loops end (C20.R31); MessageMap::add is all-or-nothing (C20.R32).',
 }
+EXTRA11 = {
+    'C05': ' Round 15: the weekday byte of the 4 byte dates leaves the iteration without a store that lives across iterations (C05.R20).',
+    'C09': ' Round 15: the active read / write lookups of MessageMap::find are reached only with the source bits cleared (C09.R21).',
+    'C14': ' Round 15: arming (or else every ending of) an INFO response resets the write position (C14.R23).',
+    'C18': ' Round 15: the characters accepted as part of a template variable name, evaluated for all 256 values (C18.R23).',
+    'C19': ' Round 15: the searches behind the unquoted dump start at 0 or at the first quote (C19.R3).',
+    'C20': ' Round 15: instructions are executed from a local copy of the stored vector (C20.R33).',
+}
 
 
 def main():
     checks = []
     for pid in sorted(CHECKS):
         c = dict(CHECKS[pid])
-        c['text'] = c['text'] + EXTRA.get(pid, '') + EXTRA2.get(pid, '') + EXTRA3.get(pid, '') + EXTRA4.get(pid, '') + EXTRA5.get(pid, '') + EXTRA6.get(pid, '') + EXTRA7.get(pid, '') + EXTRA8.get(pid, '') + EXTRA9.get(pid, '') + EXTRA10.get(pid, '')
+        c['text'] = c['text'] + EXTRA.get(pid, '') + EXTRA2.get(pid, '') + EXTRA3.get(pid, '') + EXTRA4.get(pid, '') + EXTRA5.get(pid, '') + EXTRA6.get(pid, '') + EXTRA7.get(pid, '') + EXTRA8.get(pid, '') + EXTRA9.get(pid, '') + EXTRA10.get(pid, '') + EXTRA11.get(pid, '')
         if pid in ('C01', 'C02', 'C03', 'C05', 'C06', 'C07', 'C08', 'C09', 'C10', 'C11', 'C13', 'C14', 'C15', 'C19', 'C20'):
             c['technique'] += '; finite evaluation of inline accessors / conditions from the typed AST on enumerated model states'
         checks.append({
